@@ -167,8 +167,16 @@ def build_chart(spec: Spec, cfg: Cfg, dag: Any = None) -> Any:
             nxproxy.wrap_dag_graph(dag.graph)
         rev = cfg.rev_taskset
 
+        import dataclasses
+
+        has_task_set = any(f.name == "_coro_tasks" for f in dataclasses.fields(DAGRunConcurrentManager))
+
         def manager_factory(dag: Any, ctx: Any) -> Any:
-            return DAGRunConcurrentManager(dag=dag, ctx=ctx, _coro_tasks=OrdSet(rev))
+            if has_task_set:
+                return DAGRunConcurrentManager(dag=dag, ctx=ctx, _coro_tasks=OrdSet(rev))
+            # the task registry was renamed/restructured: run with the engine's own (id()-ordered) registry rather
+            # than report a harness artefact as a verdict; the two-orders assumption is then not exercised
+            return DAGRunConcurrentManager(dag=dag, ctx=ctx)
 
         dag.run_manager = manager_factory
         chart = PipelineChart(
